@@ -1446,7 +1446,10 @@ func (s *BgpServer) processRTCMembership(peer *peer, path *table.Path) {
 				}
 				withdrawn = append(withdrawn, p)
 			}
-			if len(withdrawn) > 0 {
+			// Nothing has been advertised yet while the updates toward the peer
+			// are deferred (local speaker restarting): there is nothing to withdraw,
+			// the deferred table transfer will go by the memberships as they are then.
+			if len(withdrawn) > 0 && needToAdvertise(peer) {
 				peer.updateRoutes(withdrawn...)
 				sendfsmOutgoingMsg(peer, withdrawn)
 			}
